@@ -709,8 +709,6 @@ def expected_(tab, op):
             return None                    # '#' names belong to the evaluator
         if any(t in tab.cols for t in ast_nums(ast)):
             return None                    # a feature whose name is a number: the language is ambiguous there
-        if "" in tab.cols:
-            return None                    # see class 'empty-feature-name'
         if any(nm.startswith("#") for nm in tab.cols) and "{" in op[1]:
             return None                    # a user feature named like a temporary: createAnalyticalFeature('#k', [value]*n) finds it and keeps its values
         v = eval_ast(tab, ast)
@@ -778,7 +776,8 @@ class P(Prop):
         ("TracklibVerif.Props.C01", "TV.C01.binaryVoid_read_back", "when ADDER/SUBSTRACTER/MULTIPLIER returns temp, the output feature reads exactly temp (created or overwritten, even if it is also an input)"),
         ("TracklibVerif.Props.C01", "TV.C01.scalarVoid_read_back", "the same for SCALAR_ADDER/SCALAR_SUBSTRACTER/SCALAR_REV_SUBSTRACTER/SCALAR_MULTIPLIER"),
         ("TracklibVerif.Props.C01", "TV.C01.unaryVoid_read_back", "the same for INTEGRATOR/DIFFERENTIATOR"),
-        ("TracklibVerif.Props.C01", "TV.C01.no_temporaries", "after operate(str) no listed name starts with '#', whether evaluation returned or raised (an operator failing mid-way included) - provided the empty string is neither a listed name nor a token (af[0] raises on it: finding empty-feature-name)"),
+        ("TracklibVerif.Props.C01", "TV.C01.no_temporaries", "after operate(str) no listed name starts with '#', for every table and token list (the empty string as a name included), whether evaluation returned or raised (an operator failing mid-way included)"),
+        ("TracklibVerif.Props.C01", "TV.C01.short_list_refused", "createAnalyticalFeature(new name, list shorter than the track) raises IndexError and leaves the track exactly as it was"),
         ("TracklibVerif.Props.C01", "TV.C01.evaluate_no_new_name", "a name that is not listed, not a token of the expression and not a '#' name is not listed after the evaluation either"),
         ("TracklibVerif.Props.C01", "TV.C01.applyVoid_read_back", "when an APPLY-based operator (RECTIFIER SQRT DIODE SIGN EXP COS SIN TAN INVERSER ..., any cell function, which may raise mid-way) returns temp, the output feature reads exactly temp"),
         ("TracklibVerif.Props.C01", "TV.C01.scalarKind_read_back", "the same for SCALAR_DIVIDER, SCALAR_REV_DIVIDER (two operators in a row), SHIFT_CIRCULAR(_REV) and the twelve plain scalar operators"),
@@ -794,9 +793,6 @@ class P(Prop):
         "(model at Float with CPython's float_rem / float_pow / math functions) and by the oracle's direct recomputation",
         "read-back of the result of an '=' expression under its left-hand side is proved only through the refinement (the specification table runs the "
         "same stack machine), not as a closed formula",
-        "a list initialiser shorter than the track with a NEW name (create, track[name] = list) is outside OpOK: Python raises IndexError after having "
-        "registered the name and extended the first observations, and leaves a misaligned table - this contradicts the property (finding "
-        "short-list-initialiser); mirrored by the model, compared in the 'malformed' stream, reported by the oracle once the class is listed",
         "assignment to 't' (timestamps replaced by floats), 'timestamp' as an operand, the FILTER operator '!' between two features, D2 and the order-statistic "
         "functions in expressions, a complex result of ** , and tables that are already misaligned are outside the model (the driver answers "
         "'unsupported' and the rest of that history is not compared)",
@@ -834,7 +830,7 @@ class P(Prop):
             "capitals and near-misses of the reserved names, prefixes, digits, '#', non-ASCII, blanks, operator and separator characters, built-in names ds abs_curv speed, the "
             "empty string) used as user features through every write path; 'rich': operator objects of every family (binary / scalar / unary void incl. those whose arithmetic "
             "raises mid-way, value-returning aggregates, computeAbsCurv, estimate_speed, segmentation) and expressions with / ^ % < > >> << and function calls; 'carry': a track built "
-            "by copy / extract / slice / + from a track with features, then a history on it, the source tracks observed before and after; 'malformed': short list initialiser last; "
+            "by copy / extract / slice / + from a track with features, then a history on it, the source tracks observed before and after; 'short': a list initialiser shorter than the track in the middle of a history (refused / partial overwrite), also sprinkled in every stream; "
             "empty track. A call that raises although all its operands exist and it is well formed is a failure; "
             "non-trivial = the history deletes (remove, '#DELETE' or re-assignment by an expression) a column that is not the last one while other features are listed")
 
@@ -862,17 +858,6 @@ class P(Prop):
         from tracklib.algo.cinematics import computeAbsCurv, estimate_speed
         from tracklib.algo.segmentation import segmentation
         self.computeAbsCurv, self.estimate_speed, self.segmentation = computeAbsCurv, estimate_speed, segmentation
-        # finding classes of this module that known_findings.json lists (status "finding"): their oracle clauses are
-        # reported (and excused by the engine); a class that is not listed yet is described in PENDING and kept silent
-        import os
-        self.listed = set()
-        try:
-            with open(os.path.join(os.path.dirname(os.path.dirname(os.path.dirname(os.path.abspath(__file__)))), "known_findings.json")) as fh:
-                for en in json.load(fh).get("entries", []):
-                    if en.get("property") == "C01" and en.get("status") == "finding":
-                        self.listed.add(en.get("class"))
-        except (OSError, ValueError):
-            pass
 
     # ---------------------------------------------------------------- generators
     ALPHABET = [
@@ -942,7 +927,7 @@ class P(Prop):
     def rand_init(self, rng, n):
         if rng.random() < 0.5:
             return ["s", self.rand_val(rng)]
-        extra = rng.choice([0, 0, 0, 1])
+        extra = rng.choice([0, 0, 0, 1]) if (n == 0 or rng.random() < 0.95) else -rng.randrange(1, n + 1)   # sometimes too short
         return ["l", [self.rand_val(rng) for _ in range(n + extra)]]
 
     def expr_pool(self):
@@ -1135,15 +1120,15 @@ class P(Prop):
         # tracks that receive their table from another track: copy(), extract, slice, +
         for _ in range(900 if q else 5000):
             out.append(self.gen_carry(rng))
-        # malformed stream: a list initialiser shorter than the track, as the LAST call (Python raises mid-way
-        # and leaves a misaligned table when the name is new: class 'short-list-initialiser')
+        # a list initialiser shorter than the track in the middle of a history: refused (IndexError) before anything is
+        # written when the name is new (fix 2976f2b), a partial overwrite of an existing feature otherwise
         for _ in range(300 if q else 3000):
             n = rng.choice([2, 3, 4])
-            depth = rng.choice([0, 2, 5])
-            ops = self.gen_history(rng, n, depth, None, False)
+            ops = self.gen_history(rng, n, rng.choice([0, 2, 5]), None, False)
             short = [self.rand_val(rng) for _ in range(rng.randrange(0, n))]
             ops.append([rng.choice(["create", "update", "setitem"]), rng.choice(["a", "b", "c"]), "l", short])
-            out.append({"kind": "malformed", "n": n, "ops": ops})
+            ops += self.gen_history(rng, n, rng.choice([1, 3]), None, False)
+            out.append({"kind": "short", "n": n, "ops": ops})
         # empty track
         for _ in range(100 if q else 1000):
             out.append({"kind": "empty", "n": 0, "ops": self.gen_history(rng, 0, rng.choice([1, 3, 6]), None, rng.random() < 0.3)})
@@ -1370,7 +1355,7 @@ class P(Prop):
                 rec["agg"] = [canon(v) for v in t.operate(self.Operator.AGGREGATE, nm, list)]
             except BaseException as e:
                 rec["agg"] = self.err_of(e)
-            if expr_safe(nm) and not nm.startswith("#") and "" not in names and not any(x.startswith("#") for x in names):
+            if expr_safe(nm) and not nm.startswith("#") and not any(x.startswith("#") for x in names):
                 try:
                     rec["expr"] = [canon(v) for v in t.operate("0+" + nm)]
                 except BaseException as e:
@@ -1664,19 +1649,15 @@ class P(Prop):
         contains one of + - / * ^ > < ( ) = ' {"""
         return name != name.strip() or bool(set(name) & cls.ROUTED)
 
-    def compare_ops(self, ops, isteps, msteps, asteps, label="", last_malformed=False):
+    def compare_ops(self, ops, isteps, msteps, asteps, label=""):
         if not (len(isteps) == len(msteps) == len(asteps) == len(ops)):
             return "number of steps differs%s" % label
         for k, op in enumerate(ops):
-            if op[0] == "conv" and (self.bracket_routed(op[1]) or self.bracket_routed(op[2])):
-                return None                # Convolution reads its inputs with track[name]: see class 'convolution-reads-through-bracket'
             if msteps[k]["out"] == "unsupported" or asteps[k]["out"] == "unsupported":
                 return None                # the call is outside the model (complex power, FILTER, D2 ...): the rest of the history is not compared
             d = self.diff_step(op, isteps[k], msteps[k])
             if d:
                 return "%sstep %d %s: %s" % (label, k, op, d)
-            if last_malformed and k == len(ops) - 1:
-                continue                   # the specification table does not describe a misaligned table
             d = self.diff_step(op, isteps[k], asteps[k], with_rows=True)
             if d:
                 return "%sstep %d %s (specification table): %s" % (label, k, op, d)
@@ -1695,43 +1676,18 @@ class P(Prop):
             if model_out["steps"] is None:
                 return None                # nothing carried that the model could start from (reported by the oracle if it is a defect)
             return self.compare_ops(case["ops"], impl_out["steps"], model_out["steps"], model_out["asteps"], "derived track, ")
-        return self.compare_ops(case["ops"], impl_out["steps"], model_out["steps"], model_out["asteps"],
-                                last_malformed=case["kind"] == "malformed")
+        return self.compare_ops(case["ops"], impl_out["steps"], model_out["steps"], model_out["asteps"])
 
     # ---------------------------------------------------------------- oracle (transfer)
-    # finding classes (see classify). A class that known_findings.json does not list yet is PENDING: its clause is
-    # evaluated but kept silent, so that the check stays green until the entry is added (engine: only listed classes are excused)
-    PENDING = {
-        "short-list-initialiser": "createAnalyticalFeature / track[name] = list with a NEW name and a list shorter than the track raises "
-                                  "IndexError after the name is registered and the first observations extended: the table stays misaligned",
-        "empty-feature-name": "with a feature whose name is the empty string, the purge of operate(str) raises IndexError on af[0] and the "
-                              "evaluator's temporaries stay listed",
-        "derived-track-shares-observations": "extract / slice / + build the new track on the SAME Obs objects: creating or deleting a feature on "
-                                             "either track changes the feature lists of the other one's observations",
-        "convolution-reads-through-bracket": "Operator.CONVOLUTION reads its inputs with track[name]: a feature whose name contains one of "
-                                             "+ - / * ^ > < ( ) = ' or starts / ends with a blank is not read (the string is evaluated as an expression / stripped)",
-        "sum-of-different-feature-lists": "t1 + t2 with different feature lists lists no feature but its observations keep their values: the "
-                                          "next feature created reads the stale values",
-    }
-
     def spec(self, case, out):
-        msg = self.spec_(case, out)
-        if msg:
-            cls = self.classify(case, out, msg)
-            if cls is not None and cls not in self.listed:
-                return None
-        return msg
+        return self.spec_(case, out)
 
-    def spec_ops(self, tab, ops, steps, label="", last_malformed=False):
+    def spec_ops(self, tab, ops, steps, label=""):
         n = tab.n
         for k, op in enumerate(ops):
             ob = steps[k]
             where = "%safter call %d %s (%s): " % (label, k, op, ob["out"])
             names = ob["names"]
-            if last_malformed and k == len(ops) - 1:
-                if any(l != len(names) for l in ob["rowlens"]):
-                    return where + "%d names listed %s but the observations carry %s values" % (len(names), names, ob["rowlens"])
-                return None                # the other effects of a refused call are not specified
             # every observation carries exactly one value per listed name
             if len(set(names)) != len(names):
                 return where + "a name is listed twice: %s" % names
@@ -1828,8 +1784,8 @@ class P(Prop):
         n = case["n"]
         tab = Tab(n)
         if case["kind"] != "carry":
-            msg = self.spec_ops(tab, case["ops"], out["steps"], last_malformed=case["kind"] == "malformed")
-            if msg or case["kind"] == "malformed":
+            msg = self.spec_ops(tab, case["ops"], out["steps"])
+            if msg:
                 return msg
             return self.spec_final(tab, out)
         # ---- a track that receives its table from another one
@@ -1897,42 +1853,18 @@ class P(Prop):
         return None
 
     def classify(self, case, impl_out, msg):
-        ops = case.get("ops") or []
+        """two classes, both about tracks that share their Obs objects (known_findings.json): see DESIGN.md Part 0"""
         kind = case.get("kind")
         msg = msg or ""
-        if kind == "malformed" and ops and ops[-1][0] in ("create", "update", "setitem") \
-                and ops[-1][2] == "l" and len(ops[-1][3]) < case["n"] and "but the observations carry" in msg:
-            return "short-list-initialiser"
         if kind == "carry" and case["carry"][0] in ("extract", "slice", "plus") and \
                 ("after the calls on the derived track the" in msg):
             return "derived-track-shares-observations"
         if kind == "carry" and case["carry"][0] == "plus" and "the sum lists no feature but" in msg:
             return "sum-of-different-feature-lists"
-        m = re.search(r"after call (\d+) \['conv', ", msg)
-        if m:
-            seq = case.get("pre") if msg.startswith("source track") else ops
-            op = seq[int(m.group(1))]
-            if op[0] == "conv" and (self.bracket_routed(op[1]) or self.bracket_routed(op[2])):
-                return "convolution-reads-through-bracket"
-        # the empty feature name: the failing call is an expression evaluated while '' is listed
-        if "evaluator temporaries remain listed" in msg:
-            steps = (impl_out or {}).get("steps") or []
-            m = re.search(r"after call (\d+) ", msg)
-            if m and not msg.startswith("source track"):
-                k = int(m.group(1))
-                if k < len(steps) and "" in steps[k]["names"] and steps[k]["out"] == "err:index":
-                    return "empty-feature-name"
-            if m and msg.startswith("source track"):
-                steps = (impl_out or {}).get("pre") or []
-                k = int(m.group(1))
-                if k < len(steps) and "" in steps[k]["names"] and steps[k]["out"] == "err:index":
-                    return "empty-feature-name"
         return None
 
     # ---------------------------------------------------------------- shrinking / search
     def shrink(self, case):
-        if case["kind"] == "malformed":
-            return
         kind = "rand" if case["kind"] == "exh" else case["kind"]
         for key in (("ops", "pre") if kind == "carry" else ("ops",)):
             ops = case[key]
@@ -1944,7 +1876,7 @@ class P(Prop):
 
     def mutate(self, case, rng):
         ops = case["ops"]
-        if case["kind"] == "malformed" or not ops:
+        if not ops:
             return
         n = case["n"]
         kind = "rand" if case["kind"] == "exh" else case["kind"]
